@@ -89,20 +89,20 @@ def uclass? (c : Char) : Option UClass :=
 def supportedChar (c : Char) : Bool := isAscii c || (uclass? c).isSome
 def supportedStr (s : Str) : Bool := s.all supportedChar
 
-/-- `char::is_numeric`. -/
+/-- `char::is_numeric` (exact on ASCII; the class table elsewhere). -/
 def isNumeric (c : Char) : Bool :=
-  if isAscii c then isAsciiDigit c else
-  match uclass? c with
-  | some .numeric => true
-  | _ => false
+  isAsciiDigit c ||
+    (!isAscii c && (match uclass? c with
+      | some .numeric => true
+      | _ => false))
 
-/-- `char::is_alphanumeric`. -/
+/-- `char::is_alphanumeric` (exact on ASCII; the class table elsewhere). -/
 def isAlphanumeric (c : Char) : Bool :=
-  if isAscii c then isAsciiAlpha c || isAsciiDigit c else
-  match uclass? c with
-  | some (.alpha _) => true
-  | some .numeric => true
-  | _ => false
+  isAsciiAlpha c || isAsciiDigit c ||
+    (!isAscii c && (match uclass? c with
+      | some (.alpha _) => true
+      | some .numeric => true
+      | _ => false))
 
 def asciiLowerChar (c : Char) : Char :=
   if isAsciiUpper c then Char.ofNat (c.toNat + 32) else c
